@@ -82,7 +82,13 @@ DETERMINISTIC = ["AnalogInput", "AnalogOutput", "DigitalInput",
 @st.composite
 def fast_group_strategy(draw, max_terminals=3, types=None):
     nt = draw(st.integers(1, max_terminals))
-    terms = [draw(terminal_strategy(i)) for i in range(nt)]
+    terms = []
+    for i in range(nt):
+        t = draw(terminal_strategy(i))
+        if terms and draw(st.integers(0, 2)) == 0:
+            # another terminal of the same type as the previous one
+            t = dict(terms[-1], position=t["position"])
+        terms.append(t)
 
     def pick(direction, want_bit):
         cands = [(ti, v["name"]) for ti, t in enumerate(terms)
@@ -144,7 +150,10 @@ class CustomDevice(Device):
             self.flag = 1
 
 
-def make_terminal(ec, spec, index):
+def make_terminal(ec, spec, index, classes=None):
+    """classes: the terminal classes made for this group so far - terminals
+    of the same description are instances of one class (like two terminals
+    of the same type on a real bus), so they share its descriptors"""
     in_pos, in_sz = layout(spec["in"])
     out_pos, out_sz = layout(spec["out"])
     ns = {}
@@ -162,7 +171,10 @@ def make_terminal(ec, spec, index):
                 idx = (0x6000 if direction == "in" else 0x7000) + 0x10 * k
                 ns[v["name"]] = ProcessDesc(idx, 1)
                 pdos[idx, 1] = (sm, posmap[v["name"]], v["size"])
-    if spec.get("aerotech"):
+    key = repr((spec["in"], spec["out"], bool(spec.get("aerotech"))))
+    if classes is not None and key in classes:
+        cls = classes[key]
+    elif spec.get("aerotech"):
         # Aerotech style: the terminal builds its own write datagrams
         from ebpfcat.terminals import AerotechBase
         ns["in_size"] = max(1, in_sz)
@@ -170,6 +182,8 @@ def make_terminal(ec, spec, index):
         cls = type(f"GenAerotech{index}", (AerotechBase,), ns)
     else:
         cls = type(f"GenTerminal{index}", (EBPFTerminal,), ns)
+    if classes is not None:
+        classes[key] = cls
     t = cls(ec)
     t.name = f"T{index}"
     t.position = spec["position"]
@@ -205,7 +219,9 @@ def make_device(spec, terms):
 
 def build_group(case, kind="fast", ec=None):
     ec = ec or FastEtherCat("verif")
-    terms = [make_terminal(ec, s, i) for i, s in enumerate(case["terminals"])]
+    classes = {}
+    terms = [make_terminal(ec, s, i, classes)
+             for i, s in enumerate(case["terminals"])]
     devs = [make_device(d, terms) for d in case["devices"]]
     if kind == "fast":
         sg = FastSyncGroup(ec, devs)
